@@ -11,6 +11,7 @@
    NOT proved: that build_automaton (incl. add_finals) passes aut_cert for every grammar and fuel - completeness
    of the LR(0) collection and of closure depends on fuel; the certificate is evaluated per grammar instead. *)
 From Coq Require Import List ZArith Bool.
+From TM Require Import Gram.Derive.
 From TM Require Import Gram.Cfg Gram.LalrRef Gram.Prec Gram.Prec_proofs Gram.PTables Gram.LalrTables.
 From TM Require Import Gram.LalrSpec Gram.LalrSpec_proofs Gram.LalrSpec_proofs2 Gram.LalrSpec_proofs3 Gram.LalrCert Gram.LalrCert_proofs Gram.LalrBuild_proofs.
 Import ListNotations.
@@ -104,6 +105,17 @@ Theorem C03_lalr_la_covers :
   exists q, reach a i gamma q /\ In x (la_get (lalr_la g a fuel) q it).
 Proof. exact lalr_la_covers. Qed.
 
+(* The inductive nullable / FIRST of the definition against the derivations of Gram/Derive.v: nullable is
+   "derives the empty string", and FIRST(X) contains the first terminal of every terminal string X derives
+   (FIRST itself is defined on sentential forms, so it does not depend on productivity). *)
+Theorem C03_nullable_is_derives_empty :
+  forall g X, nullable_sym g X <-> derives g X [].
+Proof. exact nullable_sym_iff_derives. Qed.
+
+Theorem C03_first_contains_derivable_firsts :
+  forall g X a w, derives g X (a :: w) -> first_sym g X a.
+Proof. exact first_sym_of_derivation. Qed.
+
 (* FIRST and nullable compute only derivable facts. *)
 Theorem C03_first_sound :
   forall g, (forall x, In x (nullable_set g) -> nullable_sym g x) /\
@@ -147,3 +159,5 @@ Print Assumptions C03_lr1_valid_contains_textbook.
 Print Assumptions C03_lr1_valid_is_textbook.
 Print Assumptions C03_build_loop_sound.
 Print Assumptions C03_lalr_la_covers.
+Print Assumptions C03_nullable_is_derives_empty.
+Print Assumptions C03_first_contains_derivable_firsts.
